@@ -76,8 +76,8 @@ def run_case(ctx: Ctx, case: Dict[str, Any]) -> None:
             elif en == "ValueError":
                 # only an unsatisfiable conjunction may be refused this way
                 allc = sx["a"] + sy["a"] + sx["g"] + sy["g"]
-                if X.feasible(allc) == "sat" and X.feasible([{"c": t["c"], "k": t["k"] - 1e-3 * (1 + abs(t["k"]))}
-                                                             for t in allc]) == "sat":
+                if X.check(X.box(X.names_of(allc)), X.conj([{"c": t["c"], "k": t["k"] - 1e-3 * (1 + abs(t["k"]))}
+                                                            for t in allc]))[0] == "sat":
                     ctx.violation("satisfiable-merge-refused", "merge(%s) of %s and %s raised ValueError although "
                                   "assumptions and guarantees together are satisfiable with margin" % (tag, sx, sy),
                                   case)
